@@ -104,6 +104,14 @@ def parsed_alone(which, i):
     return _PARSED[key]
 
 
+def setup(ctx):
+    sp.scan_states_on()
+
+
+def finish(ctx):
+    sp.scan_states_flush(ctx)
+
+
 def check(case, ctx):
     d1 = docs()[0][case["d1"]]
     d2 = docs()[1][case["d2"]]
